@@ -199,8 +199,21 @@ def run_schedule(ctx, case, chooser=None):
     LogCassette = _classes()
     sched = DS.Scheduler(WATCH, opcode=bool(case.get('opcode')), max_steps=case.get('max_steps', 60000))
     DS.install(sched)
-    saved = (A.Lock, A.Event, A.Thread)
-    A.Lock, A.Event, A.Thread = DS.CoLock, DS.CoEvent, DS.CoThread
+    # take over the threading primitives of the cassette module, however it imports them: the names Lock / RLock /
+    # Event / Thread in its namespace and, if it does `import threading`, that name (a proxy that delegates the rest)
+    import threading as _real_threading
+    coop = {'Lock': DS.CoLock, 'RLock': DS.CoRLock, 'Event': DS.CoEvent, 'Thread': DS.CoThread}
+    saved = {}
+    for name_, repl in coop.items():
+        if getattr(A, name_, None) is getattr(_real_threading, name_):
+            saved[name_] = getattr(A, name_)
+            setattr(A, name_, repl)
+    if getattr(A, 'threading', None) is _real_threading:
+        class _ThreadingProxy(object):
+            def __getattr__(self, item):
+                return coop.get(item) or getattr(_real_threading, item)
+        saved['threading'] = A.threading
+        A.threading = _ThreadingProxy()
     obs = {}
     try:
         OWNERS.clear()
@@ -291,7 +304,8 @@ def run_schedule(ctx, case, chooser=None):
                             raise Violation('operations reaching wrapped recording %s on storage %d: %r, requested %r' % (
                                 rid, w2, got, seq if w2 == w else []), 'order-exactly-once')
     finally:
-        A.Lock, A.Event, A.Thread = saved
+        for name_, val_ in saved.items():
+            setattr(A, name_, val_)
         DS.install(None)
     return sched
 
